@@ -487,6 +487,13 @@ PROGRAMS += [('p_connection_names', a) for a in (0, 1, 2)]
 PROGRAMS += [('p_polygon_area', n) for n in (3, 4, 5, 6)]
 
 
+RECTS_THOROUGH = [(3, 3, 3, 0, 0, 2), (4, 2, 3, 1, 0, 2), (2, 2, 4, 2, 2, 2), (3, 2, 3, 0, 3, 3), (5, 1, 2, 1, 1, 2), (1, 4, 3, 0, 0, 2), (3, 3, 2, 2, 0, 4)]
+
+
+def programs(tier):
+    return PROGRAMS + ([('p_fromgeo_rect', r) for r in RECTS_THOROUGH] if tier == 'thorough' else [])
+
+
 def _fl(v):
     return 'float(__import__("fractions").Fraction(%r)/__import__("fractions").Fraction(%r))' % (v['num'], v['den']) if isinstance(v, dict) else repr(v)
 
